@@ -421,6 +421,8 @@ def run(repo, rep):
     for pr in ite.explore(fd, [d2, CtxV()], {'trailing_comment': NONE}):
         if pr.raised is not None or not isinstance(pr.value, DocV) or pr.assumed('depth_left', True):
             continue
+        if pr.assumed('max_seq_len <', True):
+            continue        # a path that shows only a prefix of the pairs: the order is read off the paths that show both
         sort_on = None
         for k_, v_ in pr.facts:
             if 'sort_dict_keys' in k_:
